@@ -119,6 +119,17 @@ chk("C01", "model_checking",
     "TLA+ spec Cell.tla (exact metric algebra as oracle) model-checked by TLC + replay of every behaviour into both modules with projection to the metric",
     "DESIGN.md section 7 C01")
 
+chk("C02", "model_checking",
+    "Orient.tla carries (integer metric G, Cayley rotation of an integer Rodrigues vector) through the converters u_to_ubi, ubi_to_u, "
+    "ubi_to_cell, ubi_to_u_b, ub_to_u_b, ubi_to_rod, u_to_rod, rod_to_u as a transition system; TLC enumerates all paths up to depth 4 for "
+    "the 24 axis-aligned rotations (incl. 180 degree ones) and seeded rotations x oblique metrics, checks N'N = D^2 I, det N = D^3 and the "
+    "metric identities, and emits the exact values. Each path is stepped through tools and laue with every intermediate compared: "
+    "UBI.UBI' = uG (rows are lattice vectors), UBI.(U.B.h) = (2pi)^w h, returned U = N'/D, B'B = adj G/(u det G), cell, Rodrigues vector. "
+    "ub_to_u_b also runs on general integer matrices with det > 0 against the integer oracle B'B = M'M, U'U = I, det U = +1, U.B = M.",
+    "Trusted: TLC, float concretisation, tolerance 1e-9; uniqueness of the QR split by Cholesky (the defining conditions are what is checked).",
+    "TLA+ spec Orient.tla (Cayley rationals x integer metrics) model-checked by TLC + step-by-step replay of every path into both modules",
+    "DESIGN.md section 7 C02")
+
 ALL = ["C%02d" % i for i in range(1, 21)]
 
 
